@@ -133,6 +133,13 @@ impl GenerationCache {
         Ok(previous_cache.combined_hash != current_cache.combined_hash)
     }
 
+    /// Forget the recorded state before the generated files are rewritten. If the run
+    /// then fails part-way (or is killed), no record is left that could vouch for
+    /// half-written files, even when the sources are later changed back.
+    pub fn invalidate<P: AsRef<Path>>(output_dir: P) {
+        let _ = fs::remove_file(Self::cache_path(output_dir));
+    }
+
     /// Check that every file a generation run writes is still present in the output
     /// directory: a matching hash says nothing about files deleted since
     pub fn outputs_present<P: AsRef<Path>>(
